@@ -25,7 +25,8 @@ def RULE(tier):
         "streams (frames > 4096 B included, so read(4096) splits too), and marker-free garbage (random bytes, SOH, "
         "'=', proper prefixes of the marker) between frames; and streams that START with the Logon (Logon, application message, "
         "ResendRequest, TestRequest, application message) on endpoints of both roles that are connected but not logged on: one read, "
-        "every 1-cut, frame-boundary reads, 1-byte reads. Expectation by construction: dispatcher, on_message "
+        "every 1-cut, frame-boundary reads, 1-byte reads; the same on the SECOND connection of an object whose first connection died "
+        "with an incomplete frame pending. Expectation by construction: dispatcher, on_message "
         "and inbound journal see exactly the sent frames, once, in order, byte-identical; receive buffer empty at "
         "the end. Non-trivial = a cut strictly inside a frame, or garbage; distinct by (stream, cuts)."
     )
@@ -270,6 +271,60 @@ def logon_stream(acc, role):
             b.close()
 
 
+def second_connection_stream(acc, role):
+    """A connection dies with an incomplete frame pending; on the NEXT connection of the same object the stream
+    [Logon, D, TestRequest, D] must come through under every 1-cut, one read and 1-byte reads. Nothing of the first
+    connection may leak into the second (the incomplete frame itself is lost with its connection: FREE)."""
+    from vlib.sess import Bench as SBench
+
+    peer, me = ("CLI", "SRV") if role == "acceptor" else ("SRV", "CLI")
+    big = ref_msg("D", peer, me, 2, [(11, "never-completed"), (58, "z" * 200)])
+    for pending in (big[:160], big[:3], big[:-1], b"8=FIX.4.4\x019=5000\x0135=D\x01" + b"q" * 300):
+        probe = SBench(role, "active")
+        n_logon_in = 2  # next inbound number on the second connection (Logon was 1, the pending frame never counted)
+        probe.close()
+        frames = [
+            ref_msg("A", peer, me, n_logon_in, [(98, 0), (108, 30)]),
+            ref_msg("D", peer, me, n_logon_in + 1, [(11, "second-1")]),
+            ref_msg("1", peer, me, n_logon_in + 2, [(112, "PING")]),
+            ref_msg("D", peer, me, n_logon_in + 3, [(11, "second-2")]),
+        ]
+        data = b"".join(frames)
+        n = len(data)
+        for cuts in [[]] + [[c] for c in range(1, n, 3)] + [list(range(1, n))] + [[len(frames[0])]]:
+            b = SBench(role, "active")
+            try:
+                b.link.readers[b.side].feed(pending)
+                b.w.idle()
+                b.link.break_("eof")
+                b.w.idle()
+                b.w.advance(1.01)
+                if role == "acceptor":
+                    b.link = b.w.attach_server_only()
+                else:
+                    b.w.connect_client()
+                    b.link = b.w.link
+                n0 = len(b.ep.dispatched)
+                m0 = len(b.ep.app_msgs)
+                r = b.link.readers[b.side]
+                for c in [data[a:z] for a, z in zip([0] + cuts, cuts + [n])]:
+                    r.feed(c)
+                    b.w.idle()
+                got = b.ep.dispatched[n0:]
+                case = {"second_connection": role, "pending": pending, "cuts": cuts if len(cuts) < 30 else "all-1-byte"}
+                kind = "one-read" if not cuts else ("one-byte-reads" if len(cuts) == n - 1 else "cut")
+                if got != frames:
+                    missing = [i for i, f in enumerate(frames) if f not in got]
+                    acc.violation(f"C03:second-connection/lost-frames/{kind}", f"{role}: previous connection died with {len(pending)} B of an incomplete frame pending; on the next connection "
+                                  f"the stream [Logon, D, TestRequest, D] cuts={case['cuts']} reached the dispatcher as {len(got)} of 4 frames (missing {missing}), "
+                                  f"state {b.ep.connection_state.name}", case)
+                elif [m.get(11) for m in b.ep.app_msgs[m0:]] != ["second-1", "second-2"]:
+                    acc.violation(f"C03:second-connection/on_message/{kind}", f"{role}: on_message saw {[m.get(11) for m in b.ep.app_msgs[m0:]]}", case)
+                acc.case(("second-connection", role, pending, tuple(cuts)), cls=[f"kind=second-connection/{kind}"])
+            finally:
+                b.close()
+
+
 GARBAGE = [b"\x01", b"=", b"8", b"8=", b"8=F", b"8=FI", b"8=FIX", b"\x0110=000\x01", b"\x00\xff\x01=", b"junk junk", b"9=12\x0135=A\x01",
            b"10=123\x01", b"\n", b"FIX.4.4", b"8=FIX,4.4\x019=5\x01",
            # long garbage (longer than the frames behind it), and the tail of an aborted frame
@@ -352,6 +407,7 @@ def plan(tier, seed):
     jobs = [("cuts1", {"name": n}) for n in small_streams()]
     jobs.append(("garbage_sweep", {}))
     jobs += [("logon_stream", {"role": r}) for r in ("acceptor", "initiator")]
+    jobs += [("second_connection_stream", {"role": r}) for r in ("acceptor", "initiator")]
     if tier == "quick":
         jobs += [("cuts2", {"name": "A3", "part": i, "parts": 4, "full": False}) for i in range(4)]
         jobs += [("cuts2", {"name": "B2", "part": 0, "parts": 1, "full": False})]
@@ -367,6 +423,9 @@ def plan(tier, seed):
 def replay(acc, case):
     if "logon_stream" in case:
         logon_stream(acc, case["logon_stream"])
+        return
+    if "second_connection" in case:
+        second_connection_stream(acc, case["second_connection"])
         return
     b = Bench()
     try:
